@@ -416,7 +416,9 @@ func (p *Path) obligation(ok *Term, kind, tag, msg string) {
 		}
 		return
 	}
-	if p.pos < len(p.prefix) {
+	if p.pos < len(p.prefix) && p.pin == nil {
+		// (when re-validating a counterexample with pinned inputs, branches that became concrete
+		// may consume the recorded trace differently: every obligation is checked there)
 		if ok.IsFalse() {
 			p.end("stop", "violation already reported")
 		}
